@@ -157,7 +157,7 @@ def genSkipAlts (F : FlagTable) (run : Run) (checkpoint : Nat) :
     | some r =>
       if (flagsOf F x).as then
         if r.pos != checkpoint then some (.inl r.pos) else genSkipAlts F run checkpoint xs r.pos
-      else if r.status then some (.inl r.pos)
+      else if r.status && r.pos != checkpoint then some (.inl r.pos)
       else genSkipAlts F run checkpoint xs (if (flagsOf F x).cps then checkpoint else r.pos)
 
 def genSkipLoop (F : FlagTable) (run : Run) (xs : List Expr) : Nat → Nat → Option Reg
